@@ -138,18 +138,14 @@ func tempKeys(newNonce, serverNonce []byte) (key, iv []byte) {
 	return crypto.TempAESKeys(new(big.Int).SetBytes(newNonce), new(big.Int).SetBytes(serverNonce))
 }
 
-// answer decrypts an exchange answer with the temporary keys; nil = undecryptable.
+// answer decrypts an exchange answer with the temporary keys; nil = not a valid answer.  It uses
+// the harness' own spec-level decryption (StrictAnswer), not the code under test.
 func (d *Dec) answer(enc []byte) (key, iv, data []byte) {
 	if len(d.NewNonce) != 32 || len(d.ServerNonce) != 16 {
 		return nil, nil, nil
 	}
 	key, iv = tempKeys(d.NewNonce, d.ServerNonce)
-	defer func() { _ = recover() }()
-	data, err := crypto.DecryptExchangeAnswer(enc, key, iv)
-	if err != nil || data == nil {
-		return key, iv, nil
-	}
-	return key, iv, data
+	return key, iv, StrictAnswer(enc, key, iv)
 }
 
 // Client decodes the i-th frame sent by the client (0: req_pq, 1: req_DH_params, 2: set_client_DH_params).
